@@ -4,260 +4,674 @@ import (
 	"bufio"
 	"go/ast"
 	"go/token"
+	"sort"
+	"strings"
 )
 
-// C05 — facts the parser/table/rendering models silently depend on: the regex sources and the order in which
-// they are tried, the flexible-space replacement, the de-duplication key, the switch of delRoute, the sort
-// order, the format verbs of TargetConfig, the lower-casing of hosts, the scanner error check.
+// C05 — facts the parser/table/rendering models silently depend on.
+//
+// The facts pin MEANING, not spelling, so that behaviour-preserving refactorings stay quiet:
+//   - the AST is normalised (constants inlined, switch → if-chain), x.UseNormalizedAST;
+//   - functions are found by ROLE, starting from the exported entry points the harness hooks use (Parse,
+//     NewTable, Table.String, Route.TargetConfig, Routes.Less, hostpath): "the handler NewTable calls when
+//     d.Cmd == "route add"", "the regex whose MatchString guards the call", …, never by an unexported name;
+//   - bodies are walked with x.WalkInlined (calls into unexported same-package functions are followed), and what
+//     is pinned are ordered EVENTS: regex sources consulted, library calls, guard conditions, format strings;
+//   - expressions are printed as SHAPES: every local variable / parameter / receiver is `_`, every unexported
+//     same-package callee is `ƒ`, every package-level variable is `g`; selected field names, exported and library callees, literals and operators stay.
+//     Where the orientation of two variables matters (Routes.Less) the variables are named by role instead
+//     (recv, p0, p1, v0, v1 in declaration order).
 func init() {
 	register("C05", func(x *X) error {
+		x.UseNormalizedAST()
 		const dir = "route"
+		c := &c05{x: x, dir: dir}
+		c.scanPackage()
 
-		// --- regex sources -------------------------------------------------------------------------
-		reArg := func(name, fn string) {
-			e := x.valueSpec(dir, name)
-			if e == nil {
-				return
-			}
-			c, ok := e.(*ast.CallExpr)
-			if !ok || x.src(c.Fun) != fn || len(c.Args) != 1 {
-				x.fail("%s is not %s(<literal>): %s", name, fn, x.src(e))
-				return
-			}
-			s, ok := x.strLit(c.Args[0])
-			if !ok {
-				x.fail("%s: argument is not a string literal", name)
-				return
-			}
-			x.defStr(name, s)
-		}
-		for _, n := range []string{"reRouteAdd", "reRouteDel", "reRouteWeight", "reComment", "reBlankLine"} {
-			reArg(n, "regexp.MustCompile")
-		}
-		for _, n := range []string{"reAdd", "reDel", "reDelSvcTags", "reDelTags", "reWeightSvc", "reWeightSrc"} {
-			reArg(n, "mustCompileWithFlexibleSpace")
-		}
-
-		// --- mustCompileWithFlexibleSpace: regexp.MustCompile(strings.Replace(re, " ", `\s+`, -1)) ----
-		if fd := x.funcDecl(dir, "", "mustCompileWithFlexibleSpace"); fd != nil {
-			cs := x.calls(fd, "strings.Replace")
-			if len(cs) != 1 || len(cs[0].Args) != 4 {
-				x.fail("mustCompileWithFlexibleSpace: expected one strings.Replace call with 4 arguments")
-			} else {
-				from, ok1 := x.strLit(cs[0].Args[1])
-				to, ok2 := x.strLit(cs[0].Args[2])
-				if !ok1 || !ok2 {
-					x.fail("mustCompileWithFlexibleSpace: replacement arguments are not literals")
-				}
-				x.defStr("flexFrom", from)
-				x.defStr("flexTo", to)
-				x.defStr("flexCount", x.src(cs[0].Args[3]))
-			}
-			x.defNat("flexCompiles", uint64(len(x.calls(fd, "regexp.MustCompile"))))
-		}
-
-		// --- which regexes a function consults, in source order ---------------------------------------
-		methodRecvs := func(fd *ast.FuncDecl, method string) []string {
-			var out []string
-			if fd == nil {
-				return out
-			}
-			ast.Inspect(fd, func(n ast.Node) bool {
-				if c, ok := n.(*ast.CallExpr); ok {
-					if sel, ok := c.Fun.(*ast.SelectorExpr); ok && sel.Sel.Name == method {
-						out = append(out, x.src(sel.X))
-					}
-				}
-				return true
-			})
-			return out
-		}
-		x.defStrList("addTries", methodRecvs(x.funcDecl(dir, "", "parseRouteAdd"), "FindStringSubmatch"))
-		x.defStrList("delTries", methodRecvs(x.funcDecl(dir, "", "parseRouteDel"), "FindStringSubmatch"))
-		x.defStrList("weightTries", methodRecvs(x.funcDecl(dir, "", "parseRouteWeight"), "FindStringSubmatch"))
+		// --- Parse: the regexes consulted, in order, through the three command parsers -----------------
 		parse := x.funcDecl(dir, "", "Parse")
-		x.defStrList("parseDispatch", methodRecvs(parse, "MatchString"))
 		if parse != nil {
-			x.defBool("parseChecksScannerErr", len(x.calls(parse, "scanner.Err")) > 0)
-			x.defBool("parseSetsScannerBuffer", len(x.calls(parse, "scanner.Buffer")) > 0)
-			x.defBool("parseTrimsSpace", len(x.calls(parse, "strings.TrimSpace")) == 1)
-			// Parse carries no state from line to line other than the line counter and the result list:
-			// every name it declares or assigns, every `continue`, every append, every make/map literal
-			names := map[string]bool{}
-			continues, makes := 0, 0
-			var appends []string
-			ast.Inspect(parse.Body, func(n ast.Node) bool {
+			var regexEvents []string
+			libs := map[string]bool{}
+			continues := 0
+			var continueGuards, appends []string
+			var guard []string // stack of enclosing if conditions is not tracked by ast.Inspect: use a parent map
+			_ = guard
+			parents := c.parentsInlined(parse)
+			c.walk(parse, func(n ast.Node) bool {
 				switch v := n.(type) {
-				case *ast.AssignStmt:
-					for _, l := range v.Lhs {
-						names[x.src(l)] = true
+				case *ast.CallExpr:
+					if sel, ok := v.Fun.(*ast.SelectorExpr); ok {
+						switch sel.Sel.Name {
+						case "MatchString":
+							regexEvents = append(regexEvents, "match:"+c.regexSource(sel.X))
+						case "FindStringSubmatch":
+							regexEvents = append(regexEvents, "find:"+c.regexSource(sel.X))
+						}
+						if id, ok := sel.X.(*ast.Ident); ok && (id.Name == "strings" || id.Name == "strconv") {
+							libs[c.libShape(v)] = true
+						}
 					}
-				case *ast.ValueSpec:
-					for _, id := range v.Names {
-						names[id.Name] = true
+					if id, ok := v.Fun.(*ast.Ident); ok && id.Name == "append" {
+						appends = append(appends, c.shape(v))
 					}
-				case *ast.IncDecStmt:
-					names[x.src(v.X)] = true
 				case *ast.BranchStmt:
 					if v.Tok == token.CONTINUE {
 						continues++
-					}
-				case *ast.CompositeLit:
-					makes++
-				case *ast.CallExpr:
-					switch x.src(v.Fun) {
-					case "append":
-						appends = append(appends, x.src(v))
-					case "make", "new":
-						makes++
+						if is := c05EnclosingIf(parents, v); is != nil {
+							continueGuards = append(continueGuards, c.shape(is.Cond))
+						}
 					}
 				}
 				return true
 			})
-			var ns []string
-			for n := range names {
-				ns = append(ns, n)
-			}
-			x.defSortedStrList("parseAssigned", ns)
+			x.defStrList("regexEvents", regexEvents)
+			x.defSortedStrList("parseLibCalls", c05Keys(libs))
 			x.defNat("parseContinues", uint64(continues))
-			x.defNat("parseAllocations", uint64(makes))
+			x.defStrList("parseContinueGuards", continueGuards)
 			x.defStrList("parseAppends", appends)
+
+			// scanner handling and state carried from line to line (in Parse itself)
+			methods := map[string]int{}
+			ast.Inspect(parse.Body, func(n ast.Node) bool {
+				if call, ok := n.(*ast.CallExpr); ok {
+					methods[x.src(call.Fun)]++ // package-qualified calls
+					if sel, ok := call.Fun.(*ast.SelectorExpr); ok {
+						methods["."+sel.Sel.Name]++
+					}
+				}
+				return true
+			})
+			x.defBool("parseUsesNewScanner", methods["bufio.NewScanner"] == 1)
+			x.defBool("parseChecksScannerErr", methods[".Err"] > 0)
+			x.defBool("parseSetsScannerBuffer", methods[".Buffer"] > 0 || methods[".Split"] > 0)
+			x.defBool("parseTrimsSpace", methods["strings.TrimSpace"] == 1)
+			// variables that live across iterations of the scan loop: declared in Parse before the loop
+			carried := 0
+			for _, st := range parse.Body.List {
+				if _, ok := st.(*ast.ForStmt); ok {
+					break
+				}
+				switch v := st.(type) {
+				case *ast.DeclStmt:
+					if gd, ok := v.Decl.(*ast.GenDecl); ok {
+						for _, s := range gd.Specs {
+							if vs, ok := s.(*ast.ValueSpec); ok {
+								carried += len(vs.Names)
+							}
+						}
+					}
+				case *ast.AssignStmt:
+					if v.Tok == token.DEFINE {
+						carried += len(v.Lhs)
+					}
+				}
+			}
+			x.defNat("parseLoopCarriedVars", uint64(carried))
 		}
 		x.defNat("maxScanTokenSize", uint64(bufio.MaxScanTokenSize)) // the Go standard library factgen is built with
 
-		// --- parseTags / parseOpts / parseWeight ------------------------------------------------------
-		callSrcs := func(fd *ast.FuncDecl, fns ...string) []string {
-			var out []string
-			if fd == nil {
-				return out
-			}
-			for _, fn := range fns {
-				for _, c := range x.calls(fd, fn) {
-					out = append(out, x.src(c))
+		// --- the three command handlers, found from NewTable by the command they are called for ----------
+		newTable := x.funcDecl(dir, "", "NewTable")
+		handlers := map[string]*ast.FuncDecl{}
+		if newTable != nil {
+			c.walk(newTable, func(n ast.Node) bool {
+				is, ok := n.(*ast.IfStmt)
+				if !ok {
+					return true
 				}
+				cond := c.shape(is.Cond)
+				for _, cmd := range []string{"route add", "route del", "route weight"} {
+					if cond == `_.Cmd == "`+cmd+`"` && handlers[cmd] == nil {
+						ast.Inspect(is.Body, func(m ast.Node) bool {
+							if call, ok := m.(*ast.CallExpr); ok && handlers[cmd] == nil {
+								if fd := c.callee(call); fd != nil {
+									handlers[cmd] = fd
+								}
+							}
+							return true
+						})
+					}
+				}
+				return true
+			})
+			for _, cmd := range []string{"route add", "route del", "route weight"} {
+				if handlers[cmd] == nil {
+					x.fail("NewTable: no handler found for command %q", cmd)
+				}
+			}
+			// the final sort
+			sorts := 0
+			c.walk(newTable, func(n ast.Node) bool {
+				if call, ok := n.(*ast.CallExpr); ok && x.src(call.Fun) == "sort.Sort" {
+					sorts++
+				}
+				return true
+			})
+			x.defBool("newTableSorts", sorts > 0)
+		}
+		usesLower := func(fd *ast.FuncDecl) bool {
+			found := false
+			if fd != nil {
+				c.walk(fd, func(n ast.Node) bool {
+					if call, ok := n.(*ast.CallExpr); ok && x.src(call.Fun) == "strings.ToLower" {
+						found = true
+					}
+					return true
+				})
+			}
+			return found
+		}
+		x.defBool("addLowersHost", usesLower(handlers["route add"]))
+		x.defBool("delLowersHost", usesLower(handlers["route del"]))
+		x.defBool("weightLowersHost", usesLower(handlers["route weight"]))
+
+		// guard conditions (shapes) met on the way through a handler, in order
+		ifConds := func(fd *ast.FuncDecl, keep func(s string) bool) []string {
+			var out []string
+			if fd != nil {
+				c.walk(fd, func(n ast.Node) bool {
+					if is, ok := n.(*ast.IfStmt); ok {
+						if s := c.shape(is.Cond); keep(s) {
+							out = append(out, s)
+						}
+					}
+					return true
+				})
 			}
 			return out
 		}
-		x.defStrList("parseTagsCalls", callSrcs(x.funcDecl(dir, "", "parseTags"), "strings.Split", "strings.TrimSpace"))
-		x.defStrList("parseOptsCalls", callSrcs(x.funcDecl(dir, "", "parseOpts"), "strings.Fields", "strings.SplitN"))
-		x.defStrList("parseWeightCalls", callSrcs(x.funcDecl(dir, "", "parseWeight"), "strconv.ParseFloat"))
+		all := func(string) bool { return true }
 
-		// --- table commands ---------------------------------------------------------------------------
-		lowers := func(recv, name string) bool {
-			fd := x.funcDecl(dir, recv, name)
-			return fd != nil && len(x.calls(fd, "strings.ToLower")) > 0
-		}
-		x.defBool("addRouteLowersHost", lowers("Table", "addRoute"))
-		x.defBool("weighRouteLowersHost", lowers("Table", "weighRoute"))
-		x.defBool("routeLowersHost", lowers("Table", "route"))
-		if fd := x.funcDecl(dir, "Table", "delRoute"); fd != nil {
-			x.defStrList("delRouteLookups", callSrcs(fd, "t.route"))
-			// the conditions of the switch, in order
-			var conds []string
-			ast.Inspect(fd, func(n ast.Node) bool {
-				if sw, ok := n.(*ast.SwitchStmt); ok && sw.Tag == nil && len(conds) == 0 {
-					for _, st := range sw.Body.List {
-						cc := st.(*ast.CaseClause)
-						if cc.List == nil {
-							conds = append(conds, "default")
-						}
-						for _, e := range cc.List {
-							conds = append(conds, x.src(e))
-						}
-					}
-					return false
-				}
-				return true
-			})
-			x.defStrList("delRouteCases", conds)
-			// the predicates handed to filter
+		// del: the four forms (conditions on the command's fields) and the predicates handed to filter
+		if fd := handlers["route del"]; fd != nil {
+			x.defStrList("delCases", ifConds(fd, func(s string) bool {
+				return strings.Contains(s, ".Tags") || strings.Contains(s, ".Src") || strings.Contains(s, ".Dst")
+			}))
 			var preds []string
-			ast.Inspect(fd, func(n ast.Node) bool {
+			c.walk(fd, func(n ast.Node) bool {
 				if fl, ok := n.(*ast.FuncLit); ok {
 					for _, st := range fl.Body.List {
 						if rs, ok := st.(*ast.ReturnStmt); ok && len(rs.Results) == 1 {
-							preds = append(preds, x.src(rs.Results[0]))
+							preds = append(preds, c.shape(rs.Results[0]))
 						}
 					}
 				}
 				return true
 			})
-			x.defStrList("delRoutePredicates", preds)
-		}
-		// addTarget: the clamp and the de-duplication test
-		if fd := x.funcDecl(dir, "Route", "addTarget"); fd != nil {
-			var ifs []string
-			ast.Inspect(fd.Body, func(n ast.Node) bool {
-				if is, ok := n.(*ast.IfStmt); ok && len(ifs) < 2 {
-					ifs = append(ifs, x.src(is.Cond))
+			x.defStrList("delPredicates", preds)
+			deletes := 0
+			c.walk(fd, func(n ast.Node) bool {
+				if call, ok := n.(*ast.CallExpr); ok && x.src(call.Fun) == "delete" {
+					deletes++
 				}
 				return true
 			})
-			x.defStrList("addTargetFirstConds", ifs)
+			x.defBool("delDeletesHosts", deletes > 0)
 		}
-		// setWeight: the match conditions and the division
-		if fd := x.funcDecl(dir, "Route", "setWeight"); fd != nil {
-			var ifs []string
-			var divs []string
+		// add: the clamp of negative weights and the de-duplication test that follows it
+		if fd := handlers["route add"]; fd != nil {
+			conds := ifConds(fd, all)
+			var pre []string
+			for i, s := range conds {
+				if strings.Contains(s, "reflect.DeepEqual") || strings.Contains(s, ".Service == _") {
+					if i > 0 {
+						pre = append(pre, conds[i-1])
+					}
+					pre = append(pre, s)
+					break
+				}
+			}
+			x.defStrList("addClampAndDedup", pre)
+		}
+		// weight: which targets match, and the share is divided by their number
+		if fd := handlers["route weight"]; fd != nil {
+			x.defStrList("weightMatchConds", ifConds(fd, func(s string) bool {
+				return strings.Contains(s, ".Service") || strings.Contains(s, ".Tags")
+			}))
+			divides := false
+			c.walk(fd, func(n ast.Node) bool {
+				if be, ok := n.(*ast.BinaryExpr); ok && be.Op == token.QUO && c.shape(be) == "_ / float64(_)" {
+					divides = true
+				}
+				return true
+			})
+			x.defBool("weightDividesByMatches", divides)
+		}
+
+		// Routes.Less: variables named by role (receiver, parameters, locals in declaration order)
+		if fd := x.funcDecl(dir, "Routes", "Less"); fd != nil {
+			ren := c.roleNames(fd)
+			var evs []string
 			ast.Inspect(fd.Body, func(n ast.Node) bool {
 				switch v := n.(type) {
+				case *ast.AssignStmt:
+					evs = append(evs, x.RenameLocals(v, ren))
 				case *ast.IfStmt:
-					ifs = append(ifs, x.src(v.Cond))
-				case *ast.BinaryExpr:
-					if v.Op == token.QUO {
-						divs = append(divs, x.src(v))
+					evs = append(evs, "if "+x.RenameLocals(v.Cond, ren))
+				case *ast.ReturnStmt:
+					evs = append(evs, x.RenameLocals(v, ren))
+				}
+				return true
+			})
+			x.defStrList("lessEvents", evs)
+		}
+		// hostpath (named by the harness hook)
+		if fd := x.funcDecl(dir, "", "hostpath"); fd != nil {
+			libs := map[string]bool{}
+			c.walk(fd, func(n ast.Node) bool {
+				if call, ok := n.(*ast.CallExpr); ok {
+					if sel, ok := call.Fun.(*ast.SelectorExpr); ok {
+						if id, ok := sel.X.(*ast.Ident); ok && id.Name == "strings" && sel.Sel.Name != "ToLower" {
+							libs[c.libShape(call)] = true
+						}
 					}
 				}
 				return true
 			})
-			x.defStrList("setWeightConds", ifs)
-			x.defStrList("setWeightDivisions", divs)
-		}
-		// Routes.Less
-		if fd := x.funcDecl(dir, "Routes", "Less"); fd != nil {
-			var rets []string
-			ast.Inspect(fd.Body, func(n ast.Node) bool {
-				if rs, ok := n.(*ast.ReturnStmt); ok && len(rs.Results) == 1 {
-					rets = append(rets, x.src(rs.Results[0]))
-				}
-				return true
-			})
-			x.defStrList("lessReturns", rets)
-		}
-		// hostpath
-		if fd := x.funcDecl(dir, "", "hostpath"); fd != nil {
-			x.defStrList("hostpathCalls", callSrcs(fd, "strings.HasPrefix", "strings.SplitN"))
+			x.defSortedStrList("hostpathCalls", c05Keys(libs))
 		}
 
-		// --- rendering ---------------------------------------------------------------------------------
+		// --- rendering -------------------------------------------------------------------------------------
 		if fd := x.funcDecl(dir, "Route", "TargetConfig"); fd != nil {
 			var fmts []string
-			for _, c := range x.calls(fd, "fmt.Sprintf") {
-				if s, ok := x.strLit(c.Args[0]); ok {
-					fmts = append(fmts, s)
-				} else {
-					x.fail("TargetConfig: Sprintf format is not a literal: %s", x.src(c))
-				}
-			}
-			x.defStrList("targetConfigFormats", fmts)
-			x.defStrList("targetConfigSorts", callSrcs(fd, "sort.Strings"))
-		}
-		if fd := x.funcDecl(dir, "Route", "config"); fd != nil {
-			var ifs []string
-			ast.Inspect(fd.Body, func(n ast.Node) bool {
-				if is, ok := n.(*ast.IfStmt); ok {
-					ifs = append(ifs, x.src(is.Cond))
+			sortsKeys := false
+			c.walk(fd, func(n ast.Node) bool {
+				if call, ok := n.(*ast.CallExpr); ok {
+					switch x.src(call.Fun) {
+					case "fmt.Sprintf":
+						if s, ok := x.strLit(call.Args[0]); ok {
+							fmts = append(fmts, s)
+						} else {
+							x.fail("TargetConfig: Sprintf format is not a literal: %s", x.src(call))
+						}
+					case "sort.Strings":
+						sortsKeys = true
+					}
 				}
 				return true
 			})
-			x.defStrList("routeConfigSkips", ifs)
-		}
-		if fd := x.funcDecl(dir, "Table", "config"); fd != nil {
-			x.defStrList("tableConfigSorts", callSrcs(fd, "sort.Sort"))
+			x.defStrList("targetConfigFormats", fmts)
+			x.defBool("targetConfigSortsKeys", sortsKeys)
+			x.defStrList("targetConfigGuards", ifConds(fd, all))
 		}
 		if fd := x.funcDecl(dir, "Table", "String"); fd != nil {
-			x.defStrList("tableStringJoins", callSrcs(fd, "strings.Join"))
+			var joins, sorts []string
+			c.walk(fd, func(n ast.Node) bool {
+				if call, ok := n.(*ast.CallExpr); ok {
+					switch x.src(call.Fun) {
+					case "strings.Join":
+						joins = append(joins, c.shape(call))
+					case "sort.Sort":
+						sorts = append(sorts, c.shape(call))
+					}
+				}
+				return true
+			})
+			x.defStrList("tableStringJoins", joins)
+			x.defStrList("tableStringSorts", sorts)
+			x.defSortedStrList("tableStringSkips", c05Uniq(ifConds(fd, func(s string) bool { return strings.Contains(s, ".Weight") })))
 		}
 		return nil
 	})
+}
+
+// ---- helpers ------------------------------------------------------------------------------------------------
+
+type c05 struct {
+	x        *X
+	dir      string
+	pkgNames map[string]bool // package-level functions, variables, constants, types
+	imports  map[string]bool
+	pkgVars  map[string]ast.Expr // package-level var initialisers
+}
+
+var c05Universe = map[string]bool{"nil": true, "true": true, "false": true, "len": true, "cap": true, "append": true, "make": true,
+	"new": true, "delete": true, "copy": true, "panic": true, "string": true, "int": true, "int64": true, "float64": true,
+	"bool": true, "byte": true, "rune": true, "error": true, "uint64": true, "iota": true, "struct": true, "_": true}
+
+func c05Uniq(xs []string) []string {
+	m := map[string]bool{}
+	for _, s := range xs {
+		m[s] = true
+	}
+	return c05Keys(m)
+}
+
+func c05Keys(m map[string]bool) []string {
+	var out []string
+	for k := range m {
+		out = append(out, k)
+	}
+	sort.Strings(out)
+	return out
+}
+
+func (c *c05) scanPackage() {
+	c.pkgNames, c.imports, c.pkgVars = map[string]bool{}, map[string]bool{}, map[string]ast.Expr{}
+	for _, f := range c.x.files(c.dir) {
+		for _, im := range f.Imports {
+			p := strings.Trim(im.Path.Value, `"`)
+			name := p[strings.LastIndex(p, "/")+1:]
+			if im.Name != nil {
+				name = im.Name.Name
+			}
+			c.imports[name] = true
+		}
+		for _, d := range f.Decls {
+			switch v := d.(type) {
+			case *ast.FuncDecl:
+				if v.Recv == nil {
+					c.pkgNames[v.Name.Name] = true
+				}
+			case *ast.GenDecl:
+				for _, s := range v.Specs {
+					switch sp := s.(type) {
+					case *ast.ValueSpec:
+						for i, n := range sp.Names {
+							c.pkgNames[n.Name] = true
+							if v.Tok == token.VAR && i < len(sp.Values) {
+								c.pkgVars[n.Name] = sp.Values[i]
+							}
+						}
+					case *ast.TypeSpec:
+						c.pkgNames[sp.Name.Name] = true
+					}
+				}
+			}
+		}
+	}
+}
+
+// callee resolves a call to an unexported function or method of the package.
+func (c *c05) callee(call *ast.CallExpr) *ast.FuncDecl {
+	name := ""
+	switch f := call.Fun.(type) {
+	case *ast.Ident:
+		name = f.Name
+	case *ast.SelectorExpr:
+		if id, ok := f.X.(*ast.Ident); ok && c.imports[id.Name] {
+			return nil
+		}
+		name = f.Sel.Name
+	}
+	if name == "" || ast.IsExported(name) || c05Universe[name] {
+		return nil
+	}
+	return c.x.anyFuncDecl(c.dir, name)
+}
+
+// candidates lists every function or method of the package with that (unexported) name: without type
+// information a method call `v.config()` may mean Table.config or Route.config — both are followed.
+func (c *c05) candidates(call *ast.CallExpr) []*ast.FuncDecl {
+	name := ""
+	switch f := call.Fun.(type) {
+	case *ast.Ident:
+		name = f.Name
+	case *ast.SelectorExpr:
+		if id, ok := f.X.(*ast.Ident); ok && c.imports[id.Name] {
+			return nil
+		}
+		name = f.Sel.Name
+	}
+	if name == "" || ast.IsExported(name) || c05Universe[name] {
+		return nil
+	}
+	var out []*ast.FuncDecl
+	for _, f := range c.x.files(c.dir) {
+		for _, d := range f.Decls {
+			if fd, ok := d.(*ast.FuncDecl); ok && fd.Name.Name == name && fd.Body != nil {
+				out = append(out, fd)
+			}
+		}
+	}
+	return out
+}
+
+// walk visits fd's body in source order and follows calls into unexported same-package functions and methods
+// (depth ≤ 4, never into a function already on the stack): like x.WalkInlined, but every same-named candidate
+// is followed.
+func (c *c05) walk(fd *ast.FuncDecl, visit func(n ast.Node) bool) {
+	stack := map[*ast.FuncDecl]bool{}
+	var rec func(fd *ast.FuncDecl, depth int)
+	rec = func(fd *ast.FuncDecl, depth int) {
+		if fd == nil || fd.Body == nil || stack[fd] || depth > 4 {
+			return
+		}
+		stack[fd] = true
+		defer delete(stack, fd)
+		ast.Inspect(fd.Body, func(n ast.Node) bool {
+			if n == nil {
+				return true
+			}
+			if !visit(n) {
+				return false
+			}
+			if call, ok := n.(*ast.CallExpr); ok {
+				for _, cd := range c.candidates(call) {
+					rec(cd, depth+1)
+				}
+			}
+			return true
+		})
+	}
+	rec(fd, 0)
+}
+
+// libShape prints a library call as callee plus its literal arguments (anything else is `_`).
+func (c *c05) libShape(call *ast.CallExpr) string {
+	var args []string
+	for _, a := range call.Args {
+		if lit, ok := a.(*ast.BasicLit); ok {
+			args = append(args, lit.Value)
+		} else {
+			args = append(args, "_")
+		}
+	}
+	return c.x.src(call.Fun) + "(" + strings.Join(args, ", ") + ")"
+}
+
+// shape prints a node with local variables as `_` and unexported same-package callees as `ƒ`.
+func (c *c05) shape(n ast.Node) string {
+	saved := map[*ast.Ident]string{}
+	set := func(id *ast.Ident, to string) {
+		if _, done := saved[id]; !done {
+			saved[id] = id.Name
+			id.Name = to
+		}
+	}
+	skip := map[*ast.Ident]bool{}
+	ast.Inspect(n, func(m ast.Node) bool {
+		switch v := m.(type) {
+		case *ast.SelectorExpr:
+			skip[v.Sel] = true
+		case *ast.KeyValueExpr:
+			if id, ok := v.Key.(*ast.Ident); ok {
+				skip[id] = true
+			}
+		case *ast.CallExpr:
+			switch f := v.Fun.(type) {
+			case *ast.Ident:
+				if c.pkgNames[f.Name] && !ast.IsExported(f.Name) && c.x.anyFuncDecl(c.dir, f.Name) != nil {
+					set(f, "ƒ")
+				}
+			case *ast.SelectorExpr:
+				pk, isPkg := f.X.(*ast.Ident)
+				if !(isPkg && c.imports[pk.Name]) && !ast.IsExported(f.Sel.Name) {
+					set(f.Sel, "ƒ")
+				}
+			}
+		}
+		return true
+	})
+	ast.Inspect(n, func(m ast.Node) bool {
+		if id, ok := m.(*ast.Ident); ok && !skip[id] {
+			if _, done := saved[id]; done {
+				return true
+			}
+			if _, isVar := c.pkgVars[id.Name]; isVar {
+				set(id, "g")
+				return true
+			}
+			if c05Universe[id.Name] || c.imports[id.Name] || c.pkgNames[id.Name] {
+				return true
+			}
+			set(id, "_")
+		}
+		return true
+	})
+	s := c.x.src(n)
+	for id, old := range saved {
+		id.Name = old
+	}
+	return s
+}
+
+// roleNames maps a function's receiver, parameters and locals to recv, p0…, v0… (declaration order).
+func (c *c05) roleNames(fd *ast.FuncDecl) map[string]string {
+	recv, params, locals := c.x.LocalNames(fd)
+	ren := map[string]string{}
+	if recv != "" {
+		ren[recv] = "recv"
+	}
+	for i, p := range params {
+		ren[p] = "p" + string(rune('0'+i))
+	}
+	k := 0
+	for _, l := range locals {
+		if _, ok := ren[l]; !ok {
+			ren[l] = "v" + string(rune('0'+k))
+			k++
+		}
+	}
+	return ren
+}
+
+// regexSource evaluates the regular expression a package-level variable is compiled from: the variable is
+// initialised by regexp.MustCompile(<literal>) or by an unexported function of one parameter that returns
+// regexp.MustCompile(strings.Replace(p, <from>, <to>, -1)) / strings.ReplaceAll(p, <from>, <to>).
+func (c *c05) regexSource(recv ast.Expr) string {
+	id, ok := recv.(*ast.Ident)
+	if !ok {
+		return "?" + c.x.src(recv)
+	}
+	init, ok := c.pkgVars[id.Name]
+	if !ok {
+		return "?" + id.Name
+	}
+	call, ok := init.(*ast.CallExpr)
+	if !ok || len(call.Args) != 1 {
+		return "?init:" + c.x.src(init)
+	}
+	lit, ok := c.x.strLit(call.Args[0])
+	if !ok {
+		return "?arg:" + c.x.src(call.Args[0])
+	}
+	if c.x.src(call.Fun) == "regexp.MustCompile" {
+		return lit
+	}
+	fd := c.callee(call)
+	if fd == nil || fd.Type.Params == nil || len(fd.Type.Params.List) != 1 || len(fd.Type.Params.List[0].Names) != 1 {
+		return "?compile:" + c.x.src(call.Fun)
+	}
+	param := fd.Type.Params.List[0].Names[0].Name
+	// local single-assignment bindings (x := expr) are substituted, so hoisting a sub-expression is harmless
+	binds := map[string]ast.Expr{}
+	var ret ast.Expr
+	for _, st := range fd.Body.List {
+		switch v := st.(type) {
+		case *ast.AssignStmt:
+			if v.Tok == token.DEFINE && len(v.Lhs) == 1 && len(v.Rhs) == 1 {
+				if l, ok := v.Lhs[0].(*ast.Ident); ok {
+					binds[l.Name] = v.Rhs[0]
+				}
+			}
+		case *ast.ReturnStmt:
+			if len(v.Results) == 1 {
+				ret = v.Results[0]
+			}
+		}
+	}
+	var eval func(e ast.Expr, depth int) (string, bool)
+	eval = func(e ast.Expr, depth int) (string, bool) {
+		if depth > 8 {
+			return "", false
+		}
+		switch v := e.(type) {
+		case *ast.ParenExpr:
+			return eval(v.X, depth+1)
+		case *ast.Ident:
+			if v.Name == param {
+				return lit, true
+			}
+			if b, ok := binds[v.Name]; ok {
+				return eval(b, depth+1)
+			}
+		case *ast.BasicLit, *ast.BinaryExpr:
+			return c.x.strLit(v)
+		case *ast.CallExpr:
+			fn := c.x.src(v.Fun)
+			switch {
+			case fn == "regexp.MustCompile" && len(v.Args) == 1:
+				return eval(v.Args[0], depth+1)
+			case (fn == "strings.Replace" && len(v.Args) == 4 && c.x.src(v.Args[3]) == "-1") || (fn == "strings.ReplaceAll" && len(v.Args) == 3):
+				s, ok1 := eval(v.Args[0], depth+1)
+				from, ok2 := eval(v.Args[1], depth+1)
+				to, ok3 := eval(v.Args[2], depth+1)
+				if ok1 && ok2 && ok3 {
+					return strings.ReplaceAll(s, from, to), true
+				}
+			}
+		}
+		return "", false
+	}
+	if ret != nil {
+		if s, ok := eval(ret, 0); ok {
+			return s
+		}
+	}
+	return "?compile-body:" + fd.Name.Name
+}
+
+// parentsInlined records, for every node reachable by WalkInlined from fd, its syntactic parent.
+func (c *c05) parentsInlined(fd *ast.FuncDecl) map[ast.Node]ast.Node {
+	parents := map[ast.Node]ast.Node{}
+	seen := map[*ast.FuncDecl]bool{}
+	var rec func(fd *ast.FuncDecl, depth int)
+	rec = func(fd *ast.FuncDecl, depth int) {
+		if fd == nil || fd.Body == nil || seen[fd] || depth > 4 {
+			return
+		}
+		seen[fd] = true
+		var stack []ast.Node
+		ast.Inspect(fd.Body, func(n ast.Node) bool {
+			if n == nil {
+				stack = stack[:len(stack)-1]
+				return true
+			}
+			if len(stack) > 0 {
+				parents[n] = stack[len(stack)-1]
+			}
+			stack = append(stack, n)
+			if call, ok := n.(*ast.CallExpr); ok {
+				for _, cd := range c.candidates(call) {
+					rec(cd, depth+1)
+				}
+			}
+			return true
+		})
+	}
+	rec(fd, 0)
+	return parents
+}
+
+// c05EnclosingIf returns the innermost if statement whose body (not else branch) contains n.
+func c05EnclosingIf(parents map[ast.Node]ast.Node, n ast.Node) *ast.IfStmt {
+	child := n
+	for p := parents[n]; p != nil; child, p = p, parents[p] {
+		if is, ok := p.(*ast.IfStmt); ok && is.Body == child {
+			return is
+		}
+	}
+	return nil
 }
